@@ -37,6 +37,8 @@ pub struct PairCfg {
     pub latching: bool,
     pub compat: String,  // Standard | LegacySip
     pub offerer: String, // A | B
+    /// plain | slowSetRemote (the offerer's set_remote_description task is held after it started ICE)
+    pub sched: String,
     /// short failure-detection timers (C17 loss scenarios); None = library defaults
     pub fast_timers: bool,
     /// small SCTP send buffer so that a sender can be blocked (BlockedSender scenarios)
@@ -56,6 +58,7 @@ impl Default for PairCfg {
             latching: false,
             compat: "Standard".into(),
             offerer: "A".into(),
+            sched: "plain".into(),
             fast_timers: false,
             small_sctp_buffer: false,
         }
@@ -84,6 +87,7 @@ impl PairCfg {
         c.latching = b("latching", c.latching);
         c.compat = s("compat", &c.compat);
         c.offerer = s("offerer", &c.offerer);
+        c.sched = s("sched", &c.sched);
         c.fast_timers = b("fast_timers", c.fast_timers);
         c.small_sctp_buffer = b("small_sctp_buffer", c.small_sctp_buffer);
         c
@@ -101,7 +105,7 @@ impl PairCfg {
             media.push("video");
         }
         json!({"mode": self.mode, "media": media, "bundle": self.bundle, "mux": self.mux, "ice": self.ice,
-               "latching": self.latching, "compat": self.compat, "offerer": self.offerer,
+               "latching": self.latching, "compat": self.compat, "offerer": self.offerer, "sched": self.sched,
                "fast_timers": self.fast_timers, "small_sctp_buffer": self.small_sctp_buffer})
     }
 
@@ -666,7 +670,7 @@ pub async fn wait_until(deadline: Duration, mut f: impl FnMut() -> bool) -> bool
         if t0.elapsed() > deadline {
             return false;
         }
-        tokio::time::sleep(Duration::from_millis(2)).await;
+        tokio::time::sleep(Duration::from_millis(4)).await;
     }
 }
 
